@@ -548,6 +548,7 @@ func (b *GRPCBroker) DialWithOptions(id uint32, opts ...grpc.DialOption) (conn *
 	p := b.getClientStream(id)
 	select {
 	case c = <-p.ch:
+		verifhook.Point("grpc.dial.taking", id)
 		close(p.doneCh)
 		verifhook.Point("grpc.dial.info", id)
 	case <-time.After(5 * time.Second):
